@@ -347,3 +347,40 @@ mut('C11', 'grammar-range-sep-kept', 'verilog.py', 'range: "[" /[0-9]+/ (":" /[0
 mut('C11', 'concat-callback-renamed', 'verilog.py', '    def concat(self, args):', '    def concatenation(self, args):', 'C11.grammar')
 neutral('C11', 'n-comment', 'verilog.py', '        for decls in args[2:]:  # pass 0: collect signal declarations', '        for decls in args[2:]:  # pass 0 - declarations')
 mut('C06', 'hash-int32-overflow', 'wave_sim.py', '_rnd = (int(seed) << 4) + (int(z_idx) << 20) + int(simctl_int[0])', '_rnd = (seed << 4) + (z_idx << 20) + simctl_int[0]', 'C06.dataset')
+
+
+# ------------------------------------------------------------------ stored sub-agent seeds and refactorings
+# Every confirmed property-breaking change under seeded/<PROP>-.../patch.diff is a corpus mutant of <PROP> (any rule), and
+# every behaviour-preserving refactoring under refactorings/<id>/patch.diff is a neutral entry for each property whose check is
+# recorded as silent on it in refactorings/STATUS.json (the residual alarms listed there are known limitations, see DESIGN.md).
+def _stored():
+    import json
+    import os
+    verif = os.path.dirname(os.path.dirname(os.path.abspath(__file__)))
+    sd = os.path.join(verif, 'seeded')
+    for d in sorted(os.listdir(sd)) if os.path.isdir(sd) else []:
+        pf = os.path.join(sd, d, 'patch.diff')
+        if os.path.isfile(pf):
+            M.append(dict(prop=d.split('-')[0], id=f'seed:{d}', patch=pf, rule=None))
+    rd = os.path.join(verif, 'refactorings')
+    st = {}
+    if os.path.isfile(os.path.join(rd, 'STATUS.json')):
+        st = json.load(open(os.path.join(rd, 'STATUS.json')))
+    props = [f'C{k:02d}' for k in range(1, 21)]
+    for d in sorted(os.listdir(rd)) if os.path.isdir(rd) else []:
+        pf = os.path.join(rd, d, 'patch.diff')
+        if not os.path.isfile(pf):
+            continue
+        residual = st.get('residual_alarms', {}).get(d, {})
+        if 'apply' in residual:
+            continue
+        touched = {l.split('/')[-1].strip() for l in open(pf) if l.startswith('+++ ')}
+        for p in props:
+            if p in residual:
+                continue
+            # only where the refactoring touches a file the check consults is the entry informative; keep the own property and close relatives
+            if p == d.split('-')[0] or (touched & {'sim.py', 'wave_sim.py'} and p in ('C03', 'C06', 'C07', 'C08')) or (touched & {'circuit.py'} and p in ('C09', 'C10', 'C17')):
+                M.append(dict(prop=p, id=f'refactoring:{d}', patch=pf, neutral=True))
+
+
+_stored()
